@@ -178,3 +178,8 @@ Definition orecords_eqb (a b : option (list record)) : bool :=
   match a, b with Some x, Some y => records_eqb x y | None, None => true | _, _ => false end.
 Definition orows_eqb (a b : option (list (list Z))) : bool :=
   match a, b with Some x, Some y => zll_eqb17 x y | None, None => true | _, _ => false end.
+
+(* SimulatorResult.to_cirq_result: outcomes are drawn (index list `picks`) from the probabilities dict, whose keys are the
+   big-endian values in the order of the vendor's histogram *)
+Definition sim_rows (n : nat) (targets : list N) (outs : list Z) (picks : list nat) : option (list (list Z)) :=
+  map_opt (fun i => sim_row n targets (nth i (map (fun o => le_to_big o n) outs) 0)) picks.
